@@ -75,12 +75,16 @@ class Type(Scope):
     def get_overridden(self, field_name):
         ret_list = []
         field_name = field_name.lower()
-        for child in self.children:
-            if field_name == child.name.lower():
-                ret_list.append(child)
-                break
-        if self.inherit_var is not None:
-            ret_list += self.inherit_var.get_overridden(field_name)
+        # Walk up the parent types, each once (EXTENDS may be cyclic in bad code)
+        type_obj = self
+        visited = []
+        while type_obj is not None and not any(type_obj is v for v in visited):
+            visited.append(type_obj)
+            for child in getattr(type_obj, "children", []):
+                if field_name == child.name.lower():
+                    ret_list.append(child)
+                    break
+            type_obj = getattr(type_obj, "inherit_var", None)
         return ret_list
 
     def check_valid_parent(self):
